@@ -4,13 +4,13 @@ SPEC = {
         "sources": ["c12.cpp", "c12_shrt3d_f.cpp", "c12_shrt3d_d.cpp", "c12_shrt2d.cpp", "c12_svd.cpp", "c12_eigen.cpp", "c12_procrustes.cpp"],
         "lib": ["ImathMatrixAlgo.cpp"],
         "technique": "exhaustive enumeration of factor lattices (scale x shear x rotation x translation), complete small-integer matrix lattices and lattice point sets against long-double / exact-integer recomposition oracles",
-        "level_text": "Affine matrices are composed by the harness in long double from every combination of an enumerated factor alphabet (8 scales per axis with reflections and graded magnitudes, 29 shears, a pi/6 rotation grid, lattice translations; zero and 1e-30 scales separately) and pushed through every 3-D and 2-D factorisation entry point of the real library; jacobiSVD runs on all 4^9 3x3 matrices over {-1,0,1,2} and all 4x4 matrices over {0,1} ({-1,0,1} in the thorough tier), jacobiEigenSolver and min/maxEigenVector on all symmetric 3x3 matrices over L(2) and 4x4 over L(1), procrustesRotationAndTranslation on thousands of lattice point sets related by the 24 cube rotations, translations and scales, and on unrelated sets with a local-optimality perturbation test. Results are judged by recomposition in long double against a-priori bounds (16 cond eps, 64 eps, 32 eps) and exact singular/eigen values.",
+        "level_text": "Affine matrices are composed by the harness in long double from every combination of an enumerated factor alphabet (8 scales per axis with reflections and graded magnitudes, 29 shears, a pi/6 rotation grid, lattice translations; zero and 1e-30 scales separately; every singular 3x3 / 2x2 linear part over {-1,0,1,2} without a zero row; extractSHRT's rOrder and Euler& in all 24 orders) and pushed through every 3-D and 2-D factorisation entry point of the real library; jacobiSVD runs on all 4^9 3x3 matrices over {-1,0,1,2} and all 4x4 matrices over {0,1} ({-1,0,1} in the thorough tier), on the same lattices multiplied by 2^+-40 / 2^+-300 and on all 3x3 matrices with at most four entries from {+-1, +-2^20, +-2^-20}, jacobiEigenSolver and min/maxEigenVector on all symmetric 3x3 matrices over L(2) and 4x4 over L(1), procrustesRotationAndTranslation on thousands of lattice point sets related by the 24 cube rotations, translations and scales, and on unrelated sets, mirror images of spanning sets and related sets with a zero-weight outlier with a local-optimality perturbation test. Results are judged by recomposition in long double against a-priori bounds (16 cond eps, 64 eps, 32 eps) and exact singular/eigen values.",
         "level_note": "Decides the property for the enumerated alphabets only; conditioning beyond 3*2^12, data outside the small integer lattices and iteration counts that only arise for other mantissas are not covered. Trusts x86-64 long double and the harness's long-double Jacobi eigenvalue iteration.",
         "deadline": {"quick": 200, "thorough": 850},
         "rule": "complete enumeration of (scale, shear, rotation, translation) factor alphabets in 3-D and 2-D, of all 3x3 {-1,0,1,2} / 4x4 {0,1} matrices, of all symmetric "
                 "L(2) 3x3 / L(1) 4x4 matrices and of lattice point-set families x 24 cube rotations; non-trivial = by a predicate on the input: reflection, graded "
-                "scales, shear, rotation at gimbal lock, zero scale (guard fires), 1e-30 scale, rank-deficient / repeated singular or eigen values / already diagonal / "
-                "negative determinant / indefinite, single-point / collinear / coplanar point sets, scaled, weighted, symmetric or unrelated sets ('.generic' classes excluded)",
+                "scales, shear, rotation at gimbal lock, zero scale (guard fires), 1e-30 scale, singular without a zero row (exactly zero orthogonalised scale / rounding residue), rotation order class, input scaled by 2^+-k, graded entries, rank-deficient / repeated singular or eigen values / already diagonal / "
+                "negative determinant / indefinite, single-point / collinear / coplanar point sets, scaled, weighted, symmetric, unrelated or mirror-image sets, zero weights ('.generic' classes excluded)",
         "assumptions": ["long double has a 64-bit significand (x86-64)",
                         "harness compiled with g++ -O2 -std=c++14 without FMA contraction, as the repository's default build"],
     }
